@@ -70,7 +70,23 @@ inductive Outcome (N V : Type) where
 structure Opts where
   dfs : Option Bool := some false    -- `Options.data_first_search` (options.py:89: default False; None = decide by shape)
   ignoreAliasConflicts : Bool := false
+  addition : Option Bool := none     -- the decorator's `Options(addition=…)`: unset/None; False; True or a type (= some true)
+  noDataLoss : Bool := false         -- `Options(no_data_loss=True)`: implies addition=False when addition is not given
+  ignoreRequired : Bool := false     -- `Options(ignore_required=True)` (only steers the search strategy here)
   deriving Repr
+
+/-- what `options.addition` is at parse time -/
+inductive Addition (T : Type) where
+  | drop                             -- None: unknown keys are ignored silently (base.py:412-414)
+  | deny                             -- False: unknown keys are an ExceedError (base.py:409-411)
+  | allow (t : Option T)             -- True / a type: unknown keys are kept, converted to the type
+  deriving Repr
+
+/-- `Options.__init__` (options.py:151-156): `no_data_loss` turns an unset `addition` into False -/
+def Opts.userAddition (o : Opts) : Option Bool :=
+  match o.addition with
+  | some b => some b
+  | none => if o.noDataLoss then some false else none
 
 variable {N V T : Type} [DecidableEq N] [DecidableEq V]
 
@@ -153,7 +169,8 @@ def useDfs (W : World N V T) (s : Sig N V T) (o : Opts) : Bool :=
   | some b => b
   | none =>
     let fs := s.fields W
-    !(ciNames W fs).isEmpty || fs.any (fun f => f.alias.isSome || !f.aliasFrom.isEmpty) || s.vk.isSome
+    !(ciNames W fs).isEmpty || fs.any (fun f => f.alias.isSome || !f.aliasFrom.isEmpty) || o.ignoreRequired
+      || s.vk.isSome || o.userAddition == some true
 
 /-! ### dictionaries as association lists -/
 
@@ -163,11 +180,29 @@ def dictSet {β : Type} (d : List (N × β)) (k : N) (v : β) : List (N × β) :
 
 /-! ### `parse_addition` (func.py:600-605 after fix C08-private-kw, base.py:390-421) -/
 
-def parseAddition (W : World N V T) (s : Sig N V T) (k : N) (v : V) : Except Err (Option V) :=
+/-- The effective `options.addition` of a decorated function (func.py:242-249): a declared `**kwargs` appends
+`Options(addition=<its annotation, else True>)` AFTER the decorator's options in `generate_from`, so the declaration
+wins over whatever `addition` the decorator's Options carry (also the False implied by `no_data_loss`); without
+`**kwargs` the decorator's value stands. -/
+def effAddition (s : Sig N V T) (o : Opts) : Addition T :=
+  match s.vk with
+  | some (_, t) => .allow t
+  | none =>
+    match o.userAddition with
+    | none => .drop
+    | some false => .deny
+    | some true => .allow none       -- rejected at declaration time, see `declOk`
+
+/-- func.py:253-257: a truthy `addition` without a `**kwargs` parameter is a ConfigError when the function is decorated -/
+def declOk (s : Sig N V T) (o : Opts) : Bool :=
+  !(s.vk.isNone && o.userAddition == some true)
+
+def parseAddition (W : World N V T) (s : Sig N V T) (o : Opts) (k : N) (v : V) : Except Err (Option V) :=
   if (s.excludeVars W).contains k then .ok none                   -- excluded vars are never carried
-  else match s.vk with
-    | none => .ok none                                            -- `options.addition` is None: dropped silently
-    | some (_, t) => (convBy W t v).map some                      -- addition=True / addition=<annotation of **kw>
+  else match effAddition s o with
+    | .drop => .ok none                                           -- dropped silently
+    | .deny => .error .perr                                       -- ExceedError
+    | .allow t => (convBy W t v).map some                         -- addition=True / addition=<annotation of **kw>
 
 /-! ### `data_first_parse` (base.py:446-560, two-phase since the C06 repairs), `as_attname=True` -/
 
@@ -207,7 +242,7 @@ def dfApply (W : World N V T) (s : Sig N V T) (o : Opts) (excluded : List N) (co
   | (name, e) :: rest, r, a =>
     match e.fld with
     | none =>
-      match parseAddition W s name e.val with
+      match parseAddition W s o name e.val with
       | .error err => .error err
       | .ok av => dfApply W s o excluded conflicts rest r (match av with | some x => dictSet a name x | none => a)
     | some f =>
@@ -296,25 +331,26 @@ def ffLoop (W : World N V T) (o : Opts) (excluded : List N) (data conflicts : Li
         | .ok p => ffLoop W o excluded data conflicts fs (dictSet r f.name p) (u ++ f.allNames W)
 
 /-- base.py:612-624: the keys no field consumed, under the spelling they were given in -/
-def ffAddition (W : World N V T) (s : Sig N V T) (used : List N) :
+def ffAddition (W : World N V T) (s : Sig N V T) (o : Opts) (used : List N) :
     List (N × V) → List (N × V) → Except Err (List (N × V))
   | [], a => .ok a
   | (k, v) :: rest, a =>
-    if used.contains (ffKey W (s.fields W) k) then ffAddition W s used rest a
-    else match parseAddition W s k v with
+    if used.contains (ffKey W (s.fields W) k) then ffAddition W s o used rest a
+    else match parseAddition W s o k v with
       | .error e => .error e
-      | .ok av => ffAddition W s used rest (match av with | some x => dictSet a k x | none => a)
+      | .ok av => ffAddition W s o used rest (match av with | some x => dictSet a k x | none => a)
 
 def fieldFirst (W : World N V T) (s : Sig N V T) (o : Opts) (excluded : List N) (data : List (N × V)) :
     Except Err (List (N × V)) :=
   match ffLoop W o excluded (ffPrep W (s.fields W) data).1 (ffPrep W (s.fields W) data).2 (s.fields W) [] [] with
   | .error e => .error e
   | .ok (r, u) =>
-    if s.vk.isSome then                                            -- `options.addition is not None`
-      match ffAddition W s u data [] with
+    match effAddition s o with
+    | .drop => .ok r                                               -- `options.addition is None`: no addition pass
+    | _ =>
+      match ffAddition W s o u data [] with
       | .error e => .error e
       | .ok a => .ok (dictUpdate r a)
-    else .ok r
 
 def parseData (W : World N V T) (s : Sig N V T) (o : Opts) (excluded : List N) (data : List (N × V)) :
     Except Err (List (N × V)) :=
